@@ -286,4 +286,26 @@ def c20_5(c: Ctx) -> None:
         c.ok('bubus/helpers.py', 'no loop-bound primitive is cached in a module-level container')
 
 
+@ob('C20.7', 'MPT', 'when a semaphore is configured (`semaphore_limit is not None`) the wrapped function is reached only through an acquisition attempt (_acquire_asyncio_semaphore / '
+    '_acquire_multiprocess_semaphore): no path skips it — in particular not on the strength of task-inherited state (a ContextVar copied into child tasks says nothing about who holds a slot)')
+def c20_7(c: Ctx) -> None:
+    w = c.unit(HLP, 'retry.decorator.wrapper')
+    g = c.cfg(w)
+    runs = [n for n in g.live_nodes() if q.node_calls(n, '_execute_with_retries')]
+    c.floor(len(runs), 1, 'calls of _execute_with_retries in wrapper')
+    acq = {n.id for n in g.live_nodes() if any(call_name(x) in ('_acquire_asyncio_semaphore', '_acquire_multiprocess_semaphore') for x in q.node_calls(n))}
+    if not acq:
+        c.fail(w, 'wrapper never calls an acquisition helper', 'the concurrency limit is not enforced at all')
+        return
+    atom = 'semaphore_limit'
+    facts = Facts(lambda a: a == atom, cg=c.cg, unit=w)
+    for rn in runs:
+        p = q.reach_search(g, [(g.entry, {})], lambda n, d, rn=rn: n is rn and d.get(atom) != 'N', lambda n, d: n.id in acq, facts, exc_ok=lambda e: False)
+        if p is None:
+            c.ok(where(w, rn.ast), 'the wrapped function runs only after an acquisition attempt, or with no semaphore configured (semaphore_limit is None)')
+        else:
+            c.fail(w, 'the wrapped function is reachable with a semaphore configured but without an acquisition attempt', 'calls can run outside the concurrency limit: a path skips the semaphore '
+                   '(if it relies on inherited per-task state, every child task of a holder runs unthrottled)', node=rn.ast, witness=c.path(g.entry, p))
+
+
 OBLIGATIONS = ob.obs
